@@ -303,4 +303,6 @@ RULES = [
     ("C07.R4", "selected indices come from the input's index range", r4),
     ("C07.R5", "family budget: per-sample cap and the 23 limit", r5),
 ]
-FLOORS = {"C07.R1": 8, "C07.R2": 7, "C07.R3": 9, "C07.R4": 7, "C07.R5": 6}
+# instance floors: about 60% of the instances confirmed by hand on the reference tree -- a rule that suddenly matches far fewer
+# sites fails the run (exit 2); a clean-up that merges two sites into one does not
+FLOORS = {"C07.R1": 4, "C07.R2": 4, "C07.R3": 5, "C07.R4": 4, "C07.R5": 3}
